@@ -37,7 +37,8 @@ def required_cells(tier):
             "out-of-root-header-defines-macro", "pattern:path", "pattern:dir", "pattern:ext", "pattern:anchored-dir", "pattern:case-variant", "all-files-excluded",
             "cli:-x-vs-toml", "cli:-x-plus-toml", "cli:tree", "cli:cov", "compiled-file-outside-root",
             "configuration-via-load_database", "code-base-of-two-directories", "outside-header-included-through-link-in-root", "code-base-of-two-directories:name-prefix-related",
-            "cli:directory-only-wildcard-pattern", "cli:tree-front-end-twice-in-one-process"]
+            "cli:directory-only-wildcard-pattern", "cli:tree-front-end-twice-in-one-process", "hard-linked-names:one-excluded", "hard-linked-names:both-members",
+            "directive-looking-line-inside-block-comment-in-headers", "directive-looking-line-inside-block-comment-in-outside-header"]
 
 
 def attribution(state, case, base):
@@ -132,6 +133,10 @@ def check_case(ctx, git, case, base, cls, do_cli=False):
         cells0.add("compiled-file-outside-root")
     if case.get("flinks") and any(attr0.get("@out/ext/olinked.h", {}).values()):
         cells0.add("outside-header-included-through-link-in-root")
+    if case.get("hidden"):
+        cells0.add("directive-looking-line-inside-block-comment-in-headers")
+        if any(r in attr0 and any(attr0[r].values()) for r in out_hdrs):
+            cells0.add("directive-looking-line-inside-block-comment-in-outside-header")
     if case.get("via_db"):
         cells0.add("configuration-via-load_database")
     for pats, pcell in pattern_sets(rng, case, ctx.quick):
@@ -230,6 +235,57 @@ def tree_twice_in_one_process(ctx, base):
                      cells=cells, cls="cli")
     else:
         acc.held(cells=cells, cls="cli")
+
+
+def hard_link_exclusion(ctx, git, base):
+    """Two names (hard links) for one header inside the code base -- a header 'installed' into include/ by hard link.
+    They are two files of the code base: each name's lines are counted, and an exclude pattern matching one name
+    removes exactly that name's lines.  Expected: projection of the per-line attribution onto the members git keeps."""
+    acc = ctx.acc
+    d = os.path.join(base, "hard")
+    shutil.rmtree(d, ignore_errors=True)
+    os.makedirs(os.path.join(d, "src"))
+    os.makedirs(os.path.join(d, "include"))
+    files = {"src/config.h": "#define HAVE_CFG 1\nint c1;\nint c2;\n#ifdef GPU\nint cg;\n#endif\n",
+             "src/main.c": "#include \"config.h\"\nint m;\n#ifdef HAVE_CFG\nint hc;\n#endif\n",
+             "src/gpu.c": "#include \"../include/config.h\"\nint g;\n"}
+    for rel, text in files.items():
+        with open(os.path.join(d, rel), "w") as f:
+            f.write(text)
+    os.link(os.path.join(d, "src/config.h"), os.path.join(d, "include/config.h"))
+    names = sorted(files) + ["include/config.h"]
+    conf = {"cpu": [{"file": os.path.join(d, "src/main.c"), "defines": [], "include_paths": [], "include_files": []}],
+            "gpu": [{"file": os.path.join(d, "src/gpu.c"), "defines": ["GPU"], "include_paths": [], "include_files": []}]}
+    for pats in ([], ["/src/config.h"], ["/include/config.h"], ["config.h"], ["/include/"], ["*.h", "!/include/config.h"]):
+        problems = []
+        try:
+            state, cb = cbi.run_find(d, conf, exclude_patterns=pats)
+            acc.hook("find")
+            attr = {}
+            for rel in names:
+                p_ = os.path.join(d, rel)
+                if state.get_tree(p_) is not None:
+                    attr[rel] = cbi.per_line(state, p_)[0]
+            ign = git.ignored(d, pats, names)
+            members = [r for r in names if not ign.get(r, False)]
+            want = project_setmap(attr, members)
+            got = setmap_of(state, cb)
+            acc.hook("get_setmap")
+            if want != got:
+                problems.append({"kind": "setmap with two hard-linked names", "patterns": pats, "members": members,
+                                 "expected": {",".join(sorted(k)): v for k, v in want.items()},
+                                 "observed": {",".join(sorted(k)): v for k, v in got.items()}})
+            listed = sorted(os.path.relpath(x, d) for x in cb)
+            if listed != sorted(members):
+                problems.append({"kind": "members with two hard-linked names", "patterns": pats, "expected": sorted(members), "observed": listed})
+        except Exception as e:
+            problems.append({"kind": "exception", "patterns": pats, "observed": f"{type(e).__name__}: {e}"})
+        cells = {"hard-linked-names:" + ("one-excluded" if pats else "both-members")}
+        case = {"scenario": "hard links", "patterns": pats}
+        if problems:
+            acc.violated({"input": case, "witness": {"files": files, "hard_link": "include/config.h -> src/config.h", "problems": problems}}, cells=cells, cls="hard")
+        else:
+            acc.held(cells=cells, cls="hard", nontrivial=case)
 
 
 def multi_directory_check(ctx, git, case, base, conf, attr0, inroot, realroot, cls):
@@ -360,12 +416,20 @@ def run_shard(ctx):
     base = os.path.join(ctx.scratch, "c10")
     if ctx.shard == 0:
         tree_twice_in_one_process(ctx, base)
+    if ctx.shard == 1 % ctx.nshards:
+        hard_link_exclusion(ctx, git, base)
     rng = ctx.rng("cases")
     for i in range(b["cases"]):
         small = rng.random() < 0.4
         case = forest.gen(rng, n_tus=rng.randint(1, 2) if small else rng.randint(1, 4), outside=rng.random() < 0.5,
                           findable=True, subdir=not small, outside_tu=(i % 3 == 1), links=(i % 4 == 0))
         case["via_db"] = i % 2 == 1
+        if i % 4 == 2:
+            # every header ends with a block comment (opened and closed on code lines) around a directive-looking line
+            # that would define or undefine a macro other files test, were it read as a directive
+            for k_, rel in enumerate(sorted(r_ for r_ in case["files"] if r_.endswith(".h"))):
+                case["files"][rel] = case["files"][rel] + [["hidden", ["#define A 1", "#define B 1", "#undef T", "#define C 1", "#define LVL 9"][k_ % 5]]]
+            case["hidden"] = True
         for tu in case["tus"]:
             tu["search"] = [["I", d] for _, d in tu["search"]]
         if not small:
